@@ -568,3 +568,58 @@ M("C09-benign-reorder-chain", "C09", "src/cppparser/cppPreprocessor.cxx",
   "  } else if (command == \"ifdef\") {\n    handle_ifdef_directive(args, loc);\n  } else if (command == \"ifndef\") {\n    handle_ifndef_directive(args, loc);",
   "  } else if (command == \"ifndef\") {\n    handle_ifndef_directive(args, loc);\n  } else if (command == \"ifdef\") {\n    handle_ifdef_directive(args, loc);",
   benign=True)
+
+# ---------------------------------------------------------------- C18
+M("C18-print-real-with-ostream", "C18", "src/cppparser/cppExpression.cxx",
+  "      char buffer[32];\n      pdtoa(_u._real, buffer);\n      out << buffer;", "      out << (double)_u._real;",
+  expect="R18.1|CPPExpression::output")
+M("C18-parse-with-atof", "C18", "src/cppparser/cppPreprocessor.cxx",
+  "    result.u.real = (long double)pstrtod(num.c_str(), nullptr);", "    result.u.real = (long double)atof(num.c_str());",
+  expect="R18.1|")
+M("C18-cached-power-digit", "C18", "src/dtoolbase/pdtoa.cxx",
+  "0xfa8fd5a0, 0x081c0288", "0xfa8fd5a0, 0x081c0289",
+  expect="R18.2|kCachedPowers[0]")
+M("C18-buffer-too-small", "C18", "src/cppparser/cppExpression.cxx",
+  "      char buffer[32];\n      pdtoa(_u._real, buffer);", "      char buffer[16];\n      pdtoa(_u._real, buffer);",
+  expect="R18.1|CPPExpression::output|T_real-through-pdtoa")
+M("C18-digits-lut", "C18", "src/dtoolbase/pdtoa.cxx",
+  "'0', '0', '0', '1', '0', '2',", "'0', '0', '0', '1', '0', '3',",
+  expect="R18.2|cDigitsLut")
+M("C18-benign-bigger-buffer", "C18", "src/cppparser/cppExpression.cxx",
+  "      char buffer[32];\n      pdtoa(_u._real, buffer);", "      char buffer[64];\n      pdtoa(_u._real, buffer);",
+  benign=True)
+
+# ---------------------------------------------------------------- C14
+M("C14-time-even-with-epoch", "C14", "src/interrogate/interrogate.cxx",
+  "    file_identifier = atoi(source_date_epoch);\n  } else {\n    file_identifier = time(nullptr);\n  }",
+  "    file_identifier = atoi(source_date_epoch);\n  }\n  if (file_identifier == 0) {\n    file_identifier = time(nullptr);\n  }",
+  expect="R14.1|interrogate.cxx::main|time")
+M("C14-rand-in-hash", "C14", "src/interrogate/interrogateBuilder.cxx",
+  "  unsigned int hash = 0;\n\n  unsigned int shift = 0;\n  string::const_iterator ni;", "  unsigned int hash = rand() & 1;\n\n  unsigned int shift = 0;\n  string::const_iterator ni;",
+  expect="R14.1|InterrogateBuilder::hash_string|rand")
+M("C14-setlocale", "C14", "src/interrogate/interrogate_module.cxx",
+  "  output_code_filename.set_text();\n\n  if (!build_c_wrappers", "  setlocale(LC_ALL, \"\");\n  output_code_filename.set_text();\n\n  if (!build_c_wrappers",
+  expect="R14.4|main|setlocale")
+M("C14-getenv-other", "C14", "src/interrogate/interrogateBuilder.cxx",
+  "  _library_hash_name = hash_string(library_name, 5);", "  _library_hash_name = hash_string(library_name, getenv(\"IGATE_SHIFT\") ? 7 : 5);",
+  expect="R14.3|InterrogateBuilder::build|getenv")
+M("C14-print-pointer", "C14", "src/interrogate/interfaceMakerPythonNative.cxx",
+  "      indent(out, indent_level) << \"  // -2 \";\n      remap->write_orig_prototype(out, 0, false, (max_num_args - min_num_args));\n      out << \"\\n\";\n\n      // NB.", "      indent(out, indent_level) << \"  // -2 \" << (void *)remap << \" \";\n      remap->write_orig_prototype(out, 0, false, (max_num_args - min_num_args));\n      out << \"\\n\";\n\n      // NB.",
+  expect="R14.5a|InterfaceMakerPythonNative::write_function_forset|prints-pointer")
+M("C14-iterate-ignores", "C14", "src/cppparser/cppPreprocessor.cxx",
+  "          CPPManifest::Ignores nested_ignores(ignores);\n          nested_ignores.insert(manifest);", "          CPPManifest::Ignores nested_ignores(ignores);\n          nested_ignores.insert(manifest);\n          for (const CPPManifest *m : nested_ignores) {\n            if (m->_has_parameters) {\n              args.push_back(m->_name);\n            }\n          }",
+  expect="R14.5b|CPPPreprocessor::expand_manifests")
+M("C14-comparator-not-total", "C14", "src/interrogate/interfaceMakerPythonNative.cxx",
+  "  std::ostringstream proto1, proto2;\n  in1->write_orig_prototype(proto1, 0);\n  in2->write_orig_prototype(proto2, 0);\n  return proto1.str() < proto2.str();", "  return false;",
+  expect="R14.5")
+M("C14-comparator-by-address", "C14", "src/interrogate/interfaceMakerPythonNative.cxx",
+  "  std::ostringstream proto1, proto2;\n  in1->write_orig_prototype(proto1, 0);\n  in2->write_orig_prototype(proto2, 0);\n  return proto1.str() < proto2.str();", "  return in1 < in2;",
+  expect="R14.5")
+M("C14-new-emitting-loop", "C14", "src/interrogate/interfaceMakerPythonNative.cxx",
+  "          bool all_nonconst = true;\n          for (FunctionRemap *remap : def._remaps) {\n            if (remap->_const_method) {\n              all_nonconst = false;\n            }\n          }\n          out << \"//////////////////\\n\";\n          out << \"// A wrapper function to satisfy Python's internal calling conventions.\\n\";\n          out << \"// \" << ClassName << \" slot \" << rfi->second._answer_location << \" -> \" << fname << \"\\n\";\n          out << \"//////////////////\\n\";\n          out << \"static PyObject *\" << def._wrapper_name << \"(PyObject *self, PyObject *arg) {\\n\";",
+  "          bool all_nonconst = true;\n          for (FunctionRemap *remap : def._remaps) {\n            if (remap->_const_method) {\n              all_nonconst = false;\n            }\n            out << \"// \" << remap->_cppfunc->get_simple_name() << \"\\n\";\n          }\n          out << \"//////////////////\\n\";\n          out << \"// A wrapper function to satisfy Python's internal calling conventions.\\n\";\n          out << \"// \" << ClassName << \" slot \" << rfi->second._answer_location << \" -> \" << fname << \"\\n\";\n          out << \"//////////////////\\n\";\n          out << \"static PyObject *\" << def._wrapper_name << \"(PyObject *self, PyObject *arg) {\\n\";",
+  expect="R14.5c|InterfaceMakerPythonNative::write_module_class|def._remaps|range-for|WT_one_param")
+M("C14-benign-anyof-loop", "C14", "src/interrogate/interfaceMakerPythonNative.cxx",
+  "          bool all_nonconst = true;\n          for (FunctionRemap *remap : def._remaps) {\n            if (remap->_const_method) {\n              all_nonconst = false;\n            }\n          }\n          out << \"//////////////////\\n\";\n          out << \"// A wrapper function to satisfy Python's internal calling conventions.\\n\";\n          out << \"// \" << ClassName << \" slot \" << rfi->second._answer_location << \" -> \" << fname << \"\\n\";\n          out << \"//////////////////\\n\";\n          out << \"static PyObject *\" << def._wrapper_name << \"(PyObject *self, PyObject *arg) {\\n\";",
+  "          bool all_nonconst = true;\n          bool any_this = false;\n          for (FunctionRemap *remap : def._remaps) {\n            if (remap->_const_method) {\n              all_nonconst = false;\n            }\n            if (remap->_has_this) {\n              any_this = true;\n            }\n          }\n          (void)any_this;\n          out << \"//////////////////\\n\";\n          out << \"// A wrapper function to satisfy Python's internal calling conventions.\\n\";\n          out << \"// \" << ClassName << \" slot \" << rfi->second._answer_location << \" -> \" << fname << \"\\n\";\n          out << \"//////////////////\\n\";\n          out << \"static PyObject *\" << def._wrapper_name << \"(PyObject *self, PyObject *arg) {\\n\";",
+  benign=True)
